@@ -2,12 +2,13 @@
    The models of Model/Parser.v are total Gallina functions whose only failure value is
    the error result; the statements below are about the places where the Go code does
    index arithmetic that could leave a slice (the anchors of the property): upper-case
-   hex decoding and socket addresses.  Header parsing has no index arithmetic left in
-   the model (split at the first delimiter).  Everything else (regexp, strconv, fmt) is
+   hex decoding, socket addresses, and the header / log-line cutting of parseAuditHeader, Parse and
+   ParseLogLine (Model/HeaderIdx.v keeps their slice expressions; it is proved equal to the split
+   reading the correspondence runs).  Everything else (regexp, strconv, fmt) is
    exercised by the correspondence run with recover() and a deadline. *)
 From Coq Require Import List Ascii String NArith ZArith Bool Arith.
 Import ListNotations.
-Require Import KV Trim Header Parser ParseProofs.
+Require Import KV Trim Header Parser ParseProofs HeaderIdx HeaderIdxProofs.
 Require Hex.
 
 (* every slice expression parseSockaddr / hexToIP evaluates is inside the string, for every input *)
@@ -17,5 +18,27 @@ Proof. exact sockaddr_slices_in_range. Qed.
 Theorem C05_hex_sound : forall s bs, Hex.decode_upper_hex s = inr bs -> s = Hex.hex_upper bs.
 Proof. exact Hex.decode_hex_sound. Qed.
 
+(* parseAuditHeader: line[start:], line[dot:], line[sep:], line[start+1:dot], line[dot+1:sep], line[sep+1:end] are all inside
+   the line, for every line; Parse's message[end:] too; and the index reading is the split reading of Model/Header.v *)
+Theorem C05_header_slices_in_range : forall line, header_pieces line <> PPanic.
+Proof. exact header_pieces_no_panic. Qed.
+Theorem C05_parse_tail_in_range : forall message,
+  match header_pieces message with POk (_, _, _, e) => parse_tail message e <> PPanic | _ => True end.
+Proof. exact parse_tail_no_panic. Qed.
+Theorem C05_header_index_reading_is_the_model : forall line,
+  parse_audit_header line =
+  match header_pieces line with
+  | POk (a, b, c, e) => numbers_of a b c (skipn (S e) line)
+  | _ => HErr
+  end.
+Proof. exact parse_audit_header_by_index. Qed.
+(* ParseLogLine: line[len("type="):msgIndex-1] and line[msgIndex+len("msg="):] are inside the line *)
+Theorem C05_log_line_slices_in_range : forall line, log_line_pieces line <> PPanic.
+Proof. exact log_line_pieces_no_panic. Qed.
+
+Print Assumptions C05_header_slices_in_range.
+Print Assumptions C05_parse_tail_in_range.
+Print Assumptions C05_header_index_reading_is_the_model.
+Print Assumptions C05_log_line_slices_in_range.
 Print Assumptions C05_sockaddr_slices_in_range.
 Print Assumptions C05_hex_sound.
